@@ -137,6 +137,13 @@ def _reader_job(args):
         written = SL.concat(SL.concat(SL.lit(q), body), SL.lit(q)) & alpha
         q1[q] = _w(written - accq, 2)
     out["q1"] = q1
+    # WSC: the languages of the Token predicates the parser's skip helpers consult, against the grammar's tables
+    want_c = SL.union([SL.startswith(o) & SL.endswith(c) for (o, c) in g.comments]) if g.comments else SL.EMPTY
+    got_c = PE.run("Token", "is_comment", rd.ctx)["T"]
+    want_s = SL.star(SL.syms([c for c in g.whitespace if len(c) == 1])) - SL.EPSILON
+    got_s = PE.run("Token", "is_space", rd.ctx)["T"]
+    out["wsc"] = {"comment_extra": _w(got_c - want_c, 2), "comment_missing": _w(want_c - got_c, 2),
+                  "space_extra": _w(got_s - want_s, 2), "space_missing": _w(want_s - got_s, 2)}
     out["visited"] = sorted(set(rd.ctx.visited))
     return out
 
@@ -358,6 +365,30 @@ def rule_lex1(repo, res, an, kinds=("decimal number", "based integer", "date/tim
                                 "(the end-of-lexeme decision -- lex_continue() and the yield condition of lexer() -- has no "
                                 "exception for this spelling)", witness=c["witness"], where="pvl/lexer.py"))
     res.floor("LEX1 pairings", len(an["readers"]), 5)
+
+
+def rule_wsc_lang(repo, res, an):
+    """WSC-LANG: Token.is_comment holds exactly for the texts that start with the opener and end with the closer of
+    one and the same pair of grammar.comments, and Token.is_space exactly for the non-empty runs of the grammar's
+    white-space characters -- per pairing, by language equality (is_WSC, which the parser's skip helpers consult,
+    returns True on these two; its shape is rule WSC)."""
+    for r in an["readers"]:
+        cfg = f"{r['decoder']}/{r['grammar']}"
+        w = r["wsc"]
+        for pred, extra, missing in (("is_comment", "comment_extra", "comment_missing"), ("is_space", "space_extra", "space_missing")):
+            ok = not w[extra] and not w[missing]
+            res.oblige("WSC-LANG", f"{cfg}: Token.{pred} holds exactly for the {'comments' if pred == 'is_comment' else 'white space'} of the grammar", ok=ok)
+            if w[extra]:
+                res.add(Finding("WSC-LANG", f"Token.{pred}", f"{cfg}: accepts more",
+                                f"with {cfg}, Token.{pred}() is true for {w[extra]}, which is neither a comment of the grammar "
+                                "(opener and closer of one pair) nor white space: the parser's skip helpers discard such a "
+                                "token silently, so text that is not a comment disappears from the label", witness=w[extra][0],
+                                where="pvl/token.py"))
+            if w[missing]:
+                res.add(Finding("WSC-LANG", f"Token.{pred}", f"{cfg}: accepts less",
+                                f"with {cfg}, Token.{pred}() is false for {w[missing]}, a comment or white space of the grammar: "
+                                "the skip helpers stop at it and the parser takes it for a significant token", witness=w[missing][0],
+                                where="pvl/token.py"))
 
 
 def rule_q1(repo, res, an):
